@@ -83,6 +83,26 @@ def rs_parity(msg: Sequence[int]) -> List[int]:
     return poly_rem(list(msg) + [0, 0, 0], generator())
 
 
+def division_trace(msg: Sequence[int]):
+    """The same division done symbol by symbol (shift register of three stages, top stage first).  Returns (parity,
+    steps) where ``steps`` lists the positions i >= 1 at which the quotient symbol (msg[i] + top stage) is 0 although the
+    register is not empty - a class of messages single-symbol basis words never reach."""
+    g = generator()
+    reg = [0, 0, 0]
+    steps = []
+    for i, d in enumerate(msg):
+        q = d ^ reg[0]
+        if q == 0 and any(reg):
+            steps.append(i)
+        reg = [reg[1] ^ mul(q, g[1]), reg[2] ^ mul(q, g[2]), mul(q, g[3])]
+    return reg, steps
+
+
+def register_top_after(prefix: Sequence[int]) -> int:
+    """top stage of the division register after the given message prefix"""
+    return poly_rem(list(prefix) + [0, 0, 0], generator())[0] if prefix else 0
+
+
 def rs_encode(msg: Sequence[int], mask: Sequence[int] = (0, 0, 0)) -> List[int]:
     par = rs_parity(msg)
     return list(msg) + [p ^ m for p, m in zip(par, mask)]
@@ -108,6 +128,9 @@ def self_test():
         w = list(bytes.fromhex(hexword))
         assert is_codeword(w, list(mask.to_bytes(3, "big"))), hexword
         assert rs_encode(w[:9], list(mask.to_bytes(3, "big"))) == w
+    for m in ([1, 14, 0, 0, 0, 0, 0, 0, 0], [7, 200, 3, 0, 90, 1, 2, 3, 4]):
+        assert division_trace(m)[0] == rs_parity(m)
+    assert division_trace([1, 14, 0, 0, 0, 0, 0, 0, 0])[1] == [1] and register_top_after([1]) == 14
     # any 3 positions: the 3x3 matrix [alpha^(j*e_i)] is Vandermonde in distinct non-zero alpha^e_i -> every error of
     # 1..3 symbols has a non-zero syndrome; spot-check one pattern
     assert syndromes([0, 0, 5, 0, 0, 0, 0, 9, 0, 0, 0, 1]) != [0, 0, 0]
